@@ -44,6 +44,11 @@ func sentinelMisuses(fns []*ssa.Function, pos func(token.Pos) string) (uses int,
 						}
 					case *ssa.MakeInterface:
 						// errors.Is(err, io.EOF) boxes nothing (already an interface); be conservative
+					case *ssa.Return:
+						// return …, io.EOF under `err == io.EOF`: the sentinel returned IS the error in hand
+						if sentinelInHand(r.Block(), g) {
+							continue
+						}
 					}
 					bad = append(bad, fmt.Sprintf("%s.%s used by `%s` at %s", g.Pkg.Pkg.Name(), g.Name(), strings.TrimSpace(ref.String()), pos(ref.Pos())))
 					badFn = append(badFn, FnName(fn))
@@ -65,4 +70,35 @@ func ruleNoManufacturedSentinel(p *Prog, l *Ledger, tier string) {
 		l.Prove(rule, "", rule+"|all", "", fmt.Sprintf("%d uses of io.EOF / ErrNoMorePackets in the library, all of them comparisons", uses))
 	}
 	l.Min(rule, uses, 3)
+}
+
+// sentinelInHand: on entry of block b some error value is known to be equal to the sentinel g (a dominating
+// `x == g` taken, or `x != g` not taken, x not a constant): handing g on is handing x on.
+func sentinelInHand(b *ssa.BasicBlock, g *ssa.Global) bool {
+	isG := func(v ssa.Value) bool {
+		u, ok := v.(*ssa.UnOp)
+		return ok && u.Op == token.MUL && u.X == ssa.Value(g)
+	}
+	for _, dc := range dominatingConds(b) {
+		bo, ok := dc.cond.(*ssa.BinOp)
+		if !ok {
+			continue
+		}
+		if !((bo.Op == token.EQL && dc.taken) || (bo.Op == token.NEQ && !dc.taken)) {
+			continue
+		}
+		var other ssa.Value
+		switch {
+		case isG(bo.X):
+			other = bo.Y
+		case isG(bo.Y):
+			other = bo.X
+		default:
+			continue
+		}
+		if _, isC := other.(*ssa.Const); !isC && !isG(other) {
+			return true
+		}
+	}
+	return false
 }
